@@ -505,44 +505,9 @@ func c18ReqTimers(p *Prog, r *Report) {
 	}
 	// who may stop a deadline timer: the context has one slot per direction, and a call that
 	// was superseded by a newer one returns while the slot holds the newer call's timer; only
-	// cancel (which every new call runs before arming its own) stops the slot's timer
-	for _, fld := range []string{"sendTimer", "receiveTimer"} {
-		stops := map[string][]string{}
-		for _, fn := range p.Funcs {
-			if rel, ok := Rel(fn.Pkg.Pkg.Path()); !ok || rel != "protocol/req" || strings.HasSuffix(p.Fset.Position(fn.Pos()).Filename, "_test.go") {
-				continue
-			}
-			for _, e := range p.Events(fn) {
-				if (e.Kind == "call" || e.Kind == "defer") && e.What == "time.(*Timer).Stop" && len(e.Args) >= 1 && strings.HasSuffix(e.Args[0], "."+fld) {
-					stops[p.FuncName(fn)] = append(stops[p.FuncName(fn)], p.InstrPos(e.In))
-				}
-			}
-		}
-		// a private helper called only from cancel is cancel
-		for name := range stops {
-			if name == "protocol/req.(*context).cancel" {
-				continue
-			}
-			only := true
-			short := name[strings.LastIndex(name, ".")+1:]
-			cs := p.CallersOf("req.(*context)." + short)
-			for c := range cs {
-				if c != "protocol/req.(*context).cancel" {
-					only = false
-				}
-			}
-			if len(cs) > 0 && only {
-				stops["protocol/req.(*context).cancel"] = append(stops["protocol/req.(*context).cancel"], stops[name]...)
-				delete(stops, name)
-			}
-		}
-		allowed := []string{"protocol/req.(*context).cancel"}
-		if fld == "receiveTimer" {
-			// the receiver stops it for the context it looked up by the reply's id: the current request
-			allowed = append(allowed, "protocol/req.(*pipe).receiver")
-		}
-		q.OnlyIn(R, "stoppers-of-"+fld, stops, allowed, []string{"protocol/req.(*context).cancel"})
-	}
+	// cancel (which every new call runs before arming its own) stops the slot's timer — and the
+	// receiver, for the context it looked up by the reply's id.  Decided by the timer table.
+	timerDiscipline(p, r, R, func(rel string) bool { return rel == "protocol/req" })
 }
 
 // c18Globals: the closed channel is closed in init and never reassigned or sent to; the
